@@ -3,7 +3,6 @@ use crate::dirx::*;
 use crate::engine::*;
 use crate::ensure;
 use crate::props::c15::*;
-use crate::sched::block_on_paused;
 use crate::vdb::*;
 use akd::append_only_zks::DEFAULT_AZKS_KEY;
 use akd::storage::types::DbRecord;
